@@ -1,5 +1,5 @@
 (* Proofs about Model/AutoEq.v (C15). *)
-From Coq Require Import List ZArith QArith Qpower Qring Bool Arith Ring_polynom BinList Lqa Lia Setoid Morphisms.
+From Coq Require Import List ZArith QArith Qpower Qring Bool Arith Ring_polynom BinList Lqa Lia Setoid Morphisms Permutation.
 From GV Require Import Lib.Tree Lib.PolyRefl15 Lib.Graph15 Model.AutoEq.
 Import ListNotations.
 Local Open Scope nat_scope.
@@ -908,3 +908,311 @@ Proof.
   intros e He. exact He.
 Qed.
 
+Local Close Scope Q_scope.
+Local Open Scope nat_scope.
+(* ================================================================== *)
+(* 12. the backtracking enumeration, for graphs of any size and any iteration-order schedule *)
+Lemma memb_In : forall v l, memb v l = true <-> In v l.
+Proof.
+  intros v l. unfold memb. rewrite existsb_exists. split.
+  - intros [x [Hx E]]. apply Nat.eqb_eq in E. subst. exact Hx.
+  - intros H. exists v. split; [exact H|apply Nat.eqb_refl].
+Qed.
+Lemma memb_diffv : forall v a b, memb v (diffv a b) = memb v a && negb (memb v b).
+Proof.
+  intros v a b. unfold diffv. induction a as [|x a IH]; [reflexivity|]. cbn [filter].
+  destruct (memb x b) eqn:E; cbn [negb].
+  - rewrite IH. cbn [memb existsb]. fold (memb v a). destruct (Nat.eqb v x) eqn:Evx; [|reflexivity].
+    apply Nat.eqb_eq in Evx. subst. rewrite E. cbn. rewrite andb_false_r. reflexivity.
+  - cbn [memb existsb]. fold (memb v a) (memb v (filter (fun v0 => negb (memb v0 b)) a)). rewrite IH.
+    destruct (Nat.eqb v x) eqn:Evx; [|reflexivity].
+    apply Nat.eqb_eq in Evx. subst. rewrite E. reflexivity.
+Qed.
+Lemma same_setb_iff : forall a b, same_setb a b = true <-> (sub a b /\ sub b a).
+Proof.
+  intros a b. unfold same_setb, subsetb, sub. rewrite andb_true_iff, !forallb_forall. split.
+  - intros [H1 H2]. split; intros v Hv; [apply H1|apply H2]; apply memb_In, Hv.
+  - intros [H1 H2]. split; intros v Hv; [apply H1|apply H2]; apply memb_In, Hv.
+Qed.
+Lemma NoDup_addv : forall v l, NoDup l -> NoDup (addv v l).
+Proof.
+  intros v l Hl. unfold addv. destruct (memb v l) eqn:E; [exact Hl|].
+  apply (Permutation_NoDup (Permutation_cons_append l v)). constructor; [|exact Hl].
+  intros Hin. apply memb_In in Hin. congruence.
+Qed.
+Lemma NoDup_unionv : forall b a, NoDup a -> NoDup (unionv a b).
+Proof. unfold unionv. induction b as [|x b IH]; intros a Ha; cbn [fold_left]; [exact Ha|]. apply IH, NoDup_addv, Ha. Qed.
+Lemma NoDup_diffv : forall a b, NoDup a -> NoDup (diffv a b).
+Proof. intros. unfold diffv. apply NoDup_filter. assumption. Qed.
+
+Definition cnt (T : list nat) (out : list (list nat)) : nat := length (filter (same_setb T) out).
+Lemma cnt_app : forall T a b, cnt T (a ++ b) = cnt T a + cnt T b.
+Proof. intros. unfold cnt. rewrite filter_app, app_length. reflexivity. Qed.
+Lemma cnt_cons : forall T c out, cnt T (c :: out) = (if same_setb T c then 1 else 0) + cnt T out.
+Proof. intros. unfold cnt. cbn [filter]. destruct (same_setb T c); reflexivity. Qed.
+
+Section Enum.
+  Variables (ord : list nat -> list nat) (es : list edge) (nodes : list nat) (root : nat).
+  Hypothesis Hord : forall l, Permutation (ord l) l.
+  Let maxsize := length nodes.
+
+  (* vertex lists grown from the root by repeatedly adding a vertex adjacent to the list *)
+  Definition inN (S : list nat) (v : nat) : Prop := exists w, memb w S = true /\ memb v (nbrs es w) = true.
+  Inductive grown : list nat -> Prop :=
+  | g_root : grown [root]
+  | g_add : forall S j, grown S -> memb j S = false -> inN S j -> grown (addv j S).
+
+  Lemma grown_root : forall S, grown S -> memb root S = true.
+  Proof.
+    induction 1 as [|S j HS IH Hj HN]; [cbn; rewrite Nat.eqb_refl; reflexivity|].
+    rewrite memb_addv, IH. apply orb_true_r.
+  Qed.
+  Lemma grown_NoDup : forall S, grown S -> NoDup S.
+  Proof. induction 1; [repeat constructor; intros []|apply NoDup_addv; assumption]. Qed.
+
+  (* a grown list not inside S has a vertex outside S adjacent to S (S containing the root) *)
+  Lemma grown_exit : forall T, grown T -> forall S, memb root S = true -> ~ sub T S ->
+      exists j, memb j T = true /\ memb j S = false /\ inN S j.
+  Proof.
+    induction 1 as [|T0 j HT IH Hj HN]; intros S Hr Hns.
+    - exfalso. apply Hns. intros v Hv. cbn in Hv. rewrite orb_false_r in Hv. apply Nat.eqb_eq in Hv. subst. exact Hr.
+    - destruct (subsetb T0 S) eqn:E.
+      + assert (HT0 : sub T0 S).
+        { intros v Hv. unfold subsetb in E. rewrite forallb_forall in E. apply E, memb_In, Hv. }
+        exists j. split; [rewrite memb_addv, Nat.eqb_refl; reflexivity|]. split.
+        * destruct (memb j S) eqn:Ej; [|reflexivity]. exfalso. apply Hns. intros v Hv.
+          rewrite memb_addv in Hv. apply orb_true_iff in Hv. destruct Hv as [Hv|Hv]; [apply Nat.eqb_eq in Hv; subst; exact Ej|apply HT0, Hv].
+        * destruct HN as [w [Hw Hjw]]. exists w. split; [apply HT0, Hw|exact Hjw].
+      + destruct (IH S Hr) as [j' [H1 [H2 H3]]].
+        { intros Hs. unfold subsetb in E. assert (forallb (fun v => memb v S) T0 = true); [|congruence].
+          apply forallb_forall. intros v Hv. apply Hs, memb_In, Hv. }
+        exists j'. split; [rewrite memb_addv, H1; apply orb_true_r|split; assumption].
+  Qed.
+
+  (* the inner loop as a function of its own *)
+  Fixpoint enum_loop (rec : list nat -> list nat -> list nat -> list (list nat)) (subl poss : list nat)
+           (cands excl : list nat) : list (list nat) :=
+    match cands with
+    | [] => []
+    | j :: cs => let excl' := addv j excl in
+                 rec (addv j subl) (diffv (unionv poss (nbrs es j)) excl') excl' ++ enum_loop rec subl poss cs excl'
+    end.
+  Lemma enum_rec_S : forall f subl poss excl,
+      enum_rec ord (S f) es maxsize subl poss excl
+      = subl :: (if Nat.eqb (length subl) maxsize then []
+                 else enum_loop (enum_rec ord f es maxsize) subl poss (ord (diffv poss excl)) excl).
+  Proof.
+    intros f subl poss excl. cbn [enum_rec]. f_equal.
+    destruct (Nat.eqb (length subl) maxsize); [reflexivity|].
+    generalize (ord (diffv poss excl)). intros cands. generalize excl.
+    induction cands as [|j cs IH]; intros ex; [reflexivity|].
+    cbn [enum_loop]. rewrite <- IH. reflexivity.
+  Qed.
+  Lemma enum_rec_0 : forall subl poss excl, enum_rec ord 0 es maxsize subl poss excl = [subl].
+  Proof. reflexivity. Qed.
+
+  Definition Cond (subl excl T : list nat) : Prop :=
+    sub subl T /\ (forall v, memb v T = true -> memb v excl = true -> memb v subl = true).
+  Definition Inv (subl poss excl : list nat) : Prop :=
+    grown subl /\ sub subl excl
+    /\ (forall v, memb v poss = true <-> (inN subl v /\ memb v excl = false)) /\ NoDup poss.
+
+  Lemma length_addv_new : forall j l, memb j l = false -> length (addv j l) = S (length l).
+  Proof. intros j l H. unfold addv. rewrite H, app_length. cbn. lia. Qed.
+
+  Lemma Inv_step : forall subl poss excl0 ex j,
+      Inv subl poss excl0 -> sub excl0 ex -> memb j poss = true -> memb j ex = false ->
+      Inv (addv j subl) (diffv (unionv poss (nbrs es j)) (addv j ex)) (addv j ex) /\ memb j subl = false.
+  Proof.
+    intros subl poss excl0 ex j [Hg [Hse [Hp Hnd]]] Hex Hjp Hjx.
+    assert (Hjs : memb j subl = false).
+    { destruct (memb j subl) eqn:E; [|reflexivity]. apply Hse, Hex in E. congruence. }
+    split; [|exact Hjs]. split; [|split; [|split]].
+    - apply g_add; [exact Hg|exact Hjs|apply Hp, Hjp].
+    - intros v Hv. rewrite memb_addv in Hv. rewrite memb_addv. apply orb_true_iff in Hv. destruct Hv as [Hv|Hv]; [rewrite Hv; reflexivity|].
+      rewrite (Hex v (Hse v Hv)). apply orb_true_r.
+    - intros v. rewrite memb_diffv, memb_unionv. split.
+      + intros H. apply andb_true_iff in H. destruct H as [H1 H2]. apply negb_true_iff in H2.
+        split; [|exact H2]. apply orb_true_iff in H1. destruct H1 as [H1|H1].
+        * apply Hp in H1. destruct H1 as [[w [Hw Hvw]] _]. exists w. split; [rewrite memb_addv, Hw; apply orb_true_r|exact Hvw].
+        * exists j. split; [rewrite memb_addv, Nat.eqb_refl; reflexivity|exact H1].
+      + intros [[w [Hw Hvw]] Hx]. rewrite Hx. cbn [negb]. rewrite andb_true_r. rewrite memb_addv in Hx.
+        rewrite memb_addv in Hw. apply orb_true_iff in Hw. apply orb_true_iff. destruct Hw as [Hw|Hw].
+        * apply Nat.eqb_eq in Hw. subst w. right. exact Hvw.
+        * left. apply Hp. split; [exists w; split; assumption|].
+          apply orb_false_iff in Hx. destruct Hx as [_ Hx].
+          destruct (memb v excl0) eqn:E; [|reflexivity]. apply Hex in E. congruence.
+    - apply NoDup_diffv, NoDup_unionv, Hnd.
+  Qed.
+
+  Section Step.
+    Variable f : nat.
+    Hypothesis IHf : forall subl poss excl, Inv subl poss excl -> f + length subl = maxsize + 1 ->
+      forall T, grown T -> (forall v, memb v T = true -> In v nodes) ->
+        (Cond subl excl T -> cnt T (enum_rec ord f es maxsize subl poss excl) = 1) /\
+        (~ Cond subl excl T -> cnt T (enum_rec ord f es maxsize subl poss excl) = 0).
+
+    Lemma loop_count : forall subl poss excl0, Inv subl poss excl0 -> f + S (length subl) = maxsize + 1 ->
+      forall T, grown T -> (forall v, memb v T = true -> In v nodes) ->
+      forall cs ex, NoDup cs -> (forall j, In j cs -> memb j poss = true /\ memb j ex = false) -> sub excl0 ex ->
+        (Cond subl ex T -> cnt T (enum_loop (enum_rec ord f es maxsize) subl poss cs ex)
+                           = if existsb (fun j => memb j T) cs then 1 else 0) /\
+        (~ Cond subl ex T -> cnt T (enum_loop (enum_rec ord f es maxsize) subl poss cs ex) = 0).
+    Proof.
+      intros subl poss excl0 HI Hlen T HT HTn. induction cs as [|j cs IH]; intros ex Hnd Hcs Hex.
+      - split; intros _; reflexivity.
+      - cbn [enum_loop existsb]. rewrite cnt_app.
+        assert (Hj : memb j poss = true /\ memb j ex = false) by (apply Hcs; left; reflexivity).
+        destruct Hj as [Hjp Hjx].
+        destruct (Inv_step subl poss excl0 ex j HI Hex Hjp Hjx) as [HI' Hjs].
+        assert (Hlen' : f + length (addv j subl) = maxsize + 1) by (rewrite (length_addv_new j subl Hjs); lia).
+        destruct (IHf _ _ _ HI' Hlen' T HT HTn) as [R1 R0].
+        inversion Hnd as [|j' cs' Hjn Hnd']. subst.
+        assert (Hcs' : forall j', In j' cs -> memb j' poss = true /\ memb j' (addv j ex) = false).
+        { intros j' Hj'. destruct (Hcs j' (or_intror Hj')) as [A B]. split; [exact A|].
+          rewrite memb_addv, B, orb_false_r. apply Nat.eqb_neq. intros ->. contradiction. }
+        assert (Hex' : sub excl0 (addv j ex)).
+        { intros v Hv. rewrite memb_addv, (Hex v Hv). apply orb_true_r. }
+        destruct (IH (addv j ex) Hnd' Hcs' Hex') as [L1 L0].
+        split.
+        + intros [Hs Hc]. destruct (memb j T) eqn:EjT; cbn [orb].
+          * rewrite R1, L0; [reflexivity| |].
+            -- intros [_ Hc']. specialize (Hc' j EjT). rewrite memb_addv, Nat.eqb_refl in Hc'. specialize (Hc' eq_refl). congruence.
+            -- split.
+               ++ intros v Hv. rewrite memb_addv in Hv. apply orb_true_iff in Hv. destruct Hv as [Hv|Hv]; [apply Nat.eqb_eq in Hv; subst; exact EjT|apply Hs, Hv].
+               ++ intros v HvT Hvx. rewrite memb_addv in Hvx. rewrite memb_addv. apply orb_true_iff in Hvx. destruct Hvx as [Hvx|Hvx]; [rewrite Hvx; reflexivity|].
+                  rewrite (Hc v HvT Hvx). apply orb_true_r.
+          * rewrite R0, L1; [reflexivity| |].
+            -- split; [exact Hs|]. intros v HvT Hvx. rewrite memb_addv in Hvx. apply orb_true_iff in Hvx.
+               destruct Hvx as [Hvx|Hvx]; [apply Nat.eqb_eq in Hvx; subst; congruence|apply Hc; assumption].
+            -- intros [Hs' _]. assert (memb j T = true); [|congruence]. apply Hs'. rewrite memb_addv, Nat.eqb_refl. reflexivity.
+        + intros Hn. rewrite R0, L0; [reflexivity| |].
+          * intros [Hs Hc]. apply Hn. split; [exact Hs|]. intros v HvT Hvx. apply Hc; [exact HvT|].
+            rewrite memb_addv, Hvx. apply orb_true_r.
+          * intros [Hs Hc]. apply Hn. split.
+            -- intros v Hv. apply Hs. rewrite memb_addv, Hv. apply orb_true_r.
+            -- intros v HvT Hvx. assert (Hv' : memb v (addv j subl) = true).
+               { apply Hc; [exact HvT|]. rewrite memb_addv, Hvx. apply orb_true_r. }
+               rewrite memb_addv in Hv'. apply orb_true_iff in Hv'. destruct Hv' as [Hv'|Hv']; [|exact Hv'].
+               apply Nat.eqb_eq in Hv'. subst. congruence.
+    Qed.
+  End Step.
+
+  Lemma sub_incl_nodes : forall subl T, sub subl T -> (forall v, memb v T = true -> In v nodes) -> incl subl nodes.
+  Proof. intros subl T Hs HT v Hv. apply HT, Hs, memb_In, Hv. Qed.
+
+  Lemma enum_rec_count : forall f subl poss excl, Inv subl poss excl -> f + length subl = maxsize + 1 ->
+      forall T, grown T -> (forall v, memb v T = true -> In v nodes) ->
+        (Cond subl excl T -> cnt T (enum_rec ord f es maxsize subl poss excl) = 1) /\
+        (~ Cond subl excl T -> cnt T (enum_rec ord f es maxsize subl poss excl) = 0).
+  Proof.
+    induction f as [|f IHf]; intros subl poss excl HI Hlen T HT HTn.
+    - (* fuel exhausted: impossible for a list inside the vertex set *)
+      rewrite enum_rec_0.
+      assert (Himp : sub subl T -> False).
+      { intros Hs. destruct HI as [Hg _].
+        pose proof (NoDup_incl_length (grown_NoDup _ Hg) (sub_incl_nodes subl T Hs HTn)) as Hl.
+        unfold maxsize in Hlen. lia. }
+      split.
+      + intros [Hs _]. contradiction.
+      + intros _. rewrite cnt_cons. destruct (same_setb T subl) eqn:E; [|reflexivity].
+        apply same_setb_iff in E. destruct E as [_ Hs]. contradiction.
+    - rewrite enum_rec_S, cnt_cons. pose proof HI as HI2. destruct HI2 as [Hg [Hse [Hp Hnd]]].
+      assert (Hsame_cond : same_setb T subl = true -> Cond subl excl T).
+      { intros E. apply same_setb_iff in E. destruct E as [HTs HsT]. split; [exact HsT|]. intros v Hv _. apply HTs, Hv. }
+      destruct (Nat.eqb (length subl) maxsize) eqn:Emax.
+      + (* all vertices used *)
+        apply Nat.eqb_eq in Emax. split.
+        * intros [Hs Hc].
+          assert (Hin : incl nodes subl).
+          { apply NoDup_length_incl; [apply grown_NoDup, Hg|unfold maxsize in Emax; lia|apply (sub_incl_nodes subl T Hs HTn)]. }
+          assert (E : same_setb T subl = true).
+          { apply same_setb_iff. split; [|exact Hs]. intros v Hv. apply memb_In, Hin, HTn, Hv. }
+          rewrite E. reflexivity.
+        * intros Hn. destruct (same_setb T subl) eqn:E; [exfalso; apply Hn, Hsame_cond; reflexivity|reflexivity].
+      + assert (Hlen' : f + S (length subl) = maxsize + 1) by lia.
+        assert (Hcnd : NoDup (ord (diffv poss excl))).
+        { apply (Permutation_NoDup (Permutation_sym (Hord _))), NoDup_diffv, Hnd. }
+        assert (Hcs : forall j, In j (ord (diffv poss excl)) -> memb j poss = true /\ memb j excl = false).
+        { intros j Hj. apply (Permutation_in _ (Hord _)) in Hj. apply memb_In in Hj. rewrite memb_diffv in Hj.
+          apply andb_true_iff in Hj. destruct Hj as [A B]. apply negb_true_iff in B. split; assumption. }
+        destruct (loop_count f IHf subl poss excl HI Hlen' T HT HTn (ord (diffv poss excl)) excl Hcnd Hcs (sub_refl excl))
+          as [L1 L0].
+        split.
+        * intros HC. rewrite (L1 HC). destruct HC as [Hs Hc].
+          destruct (same_setb T subl) eqn:E.
+          -- apply same_setb_iff in E. destruct E as [HTs _].
+             assert (Ex : existsb (fun j => memb j T) (ord (diffv poss excl)) = false).
+             { apply not_true_is_false. intros Ex. apply existsb_exists in Ex. destruct Ex as [j [Hj HjT]].
+               destruct (Hcs j Hj) as [_ Hjx]. apply HTs, Hse in HjT. congruence. }
+             rewrite Ex. reflexivity.
+          -- assert (Hns : ~ sub T subl).
+             { intros HTs. assert (same_setb T subl = true); [apply same_setb_iff; split; assumption|congruence]. }
+             destruct (grown_exit T HT subl (grown_root _ Hg) Hns) as [j [HjT [Hjs HjN]]].
+             assert (Hjx : memb j excl = false).
+             { destruct (memb j excl) eqn:Ex; [|reflexivity]. rewrite (Hc j HjT Ex) in Hjs. discriminate. }
+             assert (Ex : existsb (fun j => memb j T) (ord (diffv poss excl)) = true).
+             { apply existsb_exists. exists j. split; [|exact HjT].
+               apply (Permutation_in _ (Permutation_sym (Hord _))). apply memb_In. rewrite memb_diffv, Hjx.
+               cbn [negb]. rewrite andb_true_r. apply Hp. split; assumption. }
+             rewrite Ex. reflexivity.
+        * intros Hn. rewrite (L0 Hn).
+          destruct (same_setb T subl) eqn:E; [exfalso; apply Hn, Hsame_cond; reflexivity|reflexivity].
+  Qed.
+
+  (* soundness: everything enumerated is a grown list *)
+  Lemma loop_grown : forall f,
+      (forall subl poss excl, Inv subl poss excl ->
+         forall c, In c (enum_rec ord f es maxsize subl poss excl) -> grown c) ->
+      forall subl poss excl0, Inv subl poss excl0 ->
+      forall cs ex, NoDup cs -> (forall j, In j cs -> memb j poss = true /\ memb j ex = false) -> sub excl0 ex ->
+      forall c, In c (enum_loop (enum_rec ord f es maxsize) subl poss cs ex) -> grown c.
+  Proof.
+    intros f IHf subl poss excl0 HI. induction cs as [|j cs IH]; intros ex Hnd Hcs Hex c Hc; [contradiction|].
+    cbn [enum_loop] in Hc. apply in_app_or in Hc.
+    destruct (Hcs j (or_introl eq_refl)) as [Hjp Hjx].
+    destruct (Inv_step subl poss excl0 ex j HI Hex Hjp Hjx) as [HI' _].
+    destruct Hc as [Hc|Hc]; [apply (IHf _ _ _ HI' c Hc)|].
+    inversion Hnd as [|j' cs' Hjn Hnd']. subst.
+    apply (IH (addv j ex)); [exact Hnd'| | |exact Hc].
+    - intros j' Hj'. destruct (Hcs j' (or_intror Hj')) as [A B]. split; [exact A|].
+      rewrite memb_addv, B, orb_false_r. apply Nat.eqb_neq. intros ->. contradiction.
+    - intros v Hv. rewrite memb_addv, (Hex v Hv). apply orb_true_r.
+  Qed.
+
+  Lemma enum_rec_grown : forall f subl poss excl, Inv subl poss excl ->
+      forall c, In c (enum_rec ord f es maxsize subl poss excl) -> grown c.
+  Proof.
+    induction f as [|f IHf]; intros subl poss excl HI c Hc.
+    - rewrite enum_rec_0 in Hc. destruct Hc as [<-|[]]. apply HI.
+    - rewrite enum_rec_S in Hc. destruct Hc as [<-|Hc]; [apply HI|].
+      destruct (Nat.eqb (length subl) maxsize); [contradiction|].
+      apply (loop_grown f IHf subl poss excl HI (ord (diffv poss excl)) excl); [| |apply sub_refl|exact Hc].
+      + apply (Permutation_NoDup (Permutation_sym (Hord _))), NoDup_diffv, HI.
+      + intros j Hj. apply (Permutation_in _ (Hord _)) in Hj. apply memb_In in Hj. rewrite memb_diffv in Hj.
+        apply andb_true_iff in Hj. destruct Hj as [A B]. apply negb_true_iff in B. split; assumption.
+  Qed.
+
+  (* THE GENERAL THEOREM: for a graph of any size and any iteration-order schedule, the enumeration
+     returns only lists grown from the root, and every such vertex set inside the node list exactly once *)
+  Theorem enum_general :
+    NoDup (nbrs es root) -> memb root (nbrs es root) = false ->
+    (forall c, In c (enum_ord ord (nodes, es) root) -> grown c) /\
+    (forall T, grown T -> (forall v, memb v T = true -> In v nodes) -> cnt T (enum_ord ord (nodes, es) root) = 1).
+  Proof.
+    intros Hnd Hloop.
+    assert (HI : Inv [root] (nbrs es root) [root]).
+    { split; [apply g_root|split; [apply sub_refl|split; [|exact Hnd]]].
+      intros v. split.
+      - intros Hv. split; [exists root; split; [cbn; rewrite Nat.eqb_refl; reflexivity|exact Hv]|].
+        cbn [memb existsb]. rewrite orb_false_r. apply Nat.eqb_neq. intros ->. congruence.
+      - intros [[w [Hw Hvw]] _]. cbn [memb existsb] in Hw. rewrite orb_false_r in Hw. apply Nat.eqb_eq in Hw. subst. exact Hvw. }
+    unfold enum_ord. cbn [g_nodes g_edges fst snd]. split.
+    - apply (enum_rec_grown _ _ _ _ HI).
+    - intros T HT HTn.
+      apply (enum_rec_count (length nodes) [root] (nbrs es root) [root] HI); [unfold maxsize; cbn [length]; lia|exact HT|exact HTn|].
+      split.
+      + intros v Hv. cbn [memb existsb] in Hv. rewrite orb_false_r in Hv. apply Nat.eqb_eq in Hv. subst. apply grown_root, HT.
+      + intros v _ Hv. exact Hv.
+  Qed.
+End Enum.
